@@ -145,6 +145,16 @@ let handle (line:string) : string =
       String.concat " " (List.map tok_str toks) ^ " | " ^
       String.concat " " (List.map (fun (v, z) -> Printf.sprintf "%d=%d" v z)
                            (List.sort compare (List.map (fun (v, z) -> (int_of_n v, int_of_z z)) store)))
+  | Atom "cache" :: Atom vflags :: Atom late :: Atom fuel :: tree :: L evs :: _ ->
+      let lv = { lg_exit_overreach = bits vflags 0; lg_targetless_exits_root = bits vflags 1; lg_hist_active_parent = bits vflags 2 } in
+      let (_, k) = run_large_c lv (bits vflags 3) (late = "1") (tree_of tree)
+          (List.map (fun e -> bytes_of_hex (atom e)) evs) (nat_of_int (int_of_string fuel)) in
+      let rows pairs =
+        let ps = List.sort_uniq compare (List.map (fun (a, b) -> (int_of_nat a, int_of_nat b)) pairs) in
+        let keys = List.sort_uniq compare (List.map fst ps) in
+        String.concat "" (List.map (fun a ->
+          string_of_int a ^ ":" ^ String.concat "," (List.map (fun (_, b) -> string_of_int b) (List.filter (fun (x, _) -> x = a) ps)) ^ ";") keys) in
+      "K compat=" ^ rows k.tc_compat ^ " confl=" ^ rows k.tc_confl
   | Atom "legal" :: Atom late :: tree :: cfgs ->
       let t = tree_of tree in
       String.concat "" (List.map (function L l -> b2s (legal_sids (late = "1") t (List.map nat_n l)) | _ -> "?") cfgs)
